@@ -436,6 +436,7 @@ Proof.
   - split; [|reflexivity]. unfold abs_ctx; cbn; congruence.
   - specialize (Hs eq_refl). split; [|reflexivity]. unfold abs_ctx; cbn; congruence.
   - split; [exact H0|]. cbn. rewrite H0. reflexivity.
+  - split; [exact H0|]. cbn. rewrite H0. reflexivity.
 Qed.
 
 (* ------------------------------------------------------------------ call sequences *)
